@@ -389,6 +389,32 @@ def c11_task(task):
     stats = collections.Counter()
     dis, viol, samples = [], [], []
     digests = set()
+    def src_model_syms(syms, nm, got=None, outc=None, have_impl=False):
+        if not have_impl:
+            try:
+                got, outc = P.assemble(list(syms)), 'ok'
+            except BaseException as e:
+                got, outc = None, type(e).__name__
+        if any((' ' in x or not x.isascii()) and not x[:1] in 'sS' for x in syms):
+            stats['srcmodel:unm'] += 1
+            return
+        m = model.cmd('ASRC ' + ' '.join((x.encode('utf-8', 'surrogatepass').hex() or '-') for x in syms)) if syms else 'ok -'
+        if m == 'unm':
+            stats['srcmodel:unm'] += 1
+            return
+        impl = ('ok ' + tsh.hx(got)) if got is not None else 'err'
+        stats['srcmodel:' + ('agree' if m == impl else 'differ') + (':rejected' if impl == 'err' else '')] += 1
+        if m != impl and len(dis) < 5:
+            dis.append(dict(stream='Assembler.assemble_r vs parsing.assemble on the symbols of a %s source' % nm,
+                            symbols=syms[:40], model=m[:200], impl=impl[:200], impl_exception=outc))
+
+    def src_model(src, got, outc, nm):
+        try:
+            syms = P.get_symbols(src)
+        except BaseException:
+            return
+        src_model_syms(syms, nm, got, outc, have_impl=True)
+
     for it in range(n):
         g = AstGen(rng, max_depth=rng.choice([1, 2, 3]))
         p = g.prog()
@@ -427,11 +453,32 @@ def c11_task(task):
                 if len(viol) < 8:
                     viol.append(dict(what='%s source does not compile to the documented encoding (%s)' % (nm, outc),
                                      source=src[:600], expected=ref.hex()[:300], got=(got.hex()[:300] if got is not None else None)))
+            # the source-level model (model/Assembler.v: assemble_r on the symbols of the source) vs the compiler, on the
+            # source as written and on a damaged copy (a symbol dropped / doubled / swapped / replaced)
+            if nm != 'macro/comptime':
+                src_model(src, got, outc, nm)
+                try:
+                    syms = P.get_symbols(src)
+                except BaseException:
+                    syms = []
+                if syms and rng.random() < 0.5:
+                    j = rng.randrange(len(syms))
+                    k = rng.random()
+                    if k < 0.3: bad = syms[:j] + syms[j + 1:]
+                    elif k < 0.5: bad = syms[:j] + [syms[j]] + syms[j:]
+                    elif k < 0.7 and len(syms) > 1:
+                        j2 = rng.randrange(len(syms)); bad = list(syms); bad[j], bad[j2] = bad[j2], bad[j]
+                    else: bad = syms[:j] + [rng.choice(['}', '{', 'ELSE', 'END_IF', 'd1', 'x01', 'TRUE', 'd300', '(', ')', 'xfff'])] + syms[j + 1:]
+                    src_model_syms(bad, 'damaged')
         if len(samples) < 2:
             samples.append(dict(listing=lst[:8], spelling=variants[1][1][:200], bytes=ref.hex()[:120]))
     # sources that cannot be encoded must be rejected, not silently mis-assembled
     for src in MALFORMED:
         stats['malformed'] += 1
+        try:
+            src_model_syms(P.get_symbols(src), 'malformed')
+        except BaseException:
+            pass
         try:
             b = P.compile_script(src)
             stats['direct-fail'] += 1
